@@ -7,6 +7,8 @@ INC = os.path.join(ROOT, "seeded", "_incoming")
 props = {json.loads(l)["id"]: json.loads(l) for l in open(os.path.join(ROOT, "properties.jsonl"))}
 mpath = os.path.join(ROOT, "seeded", "matrix.json")
 matrix = json.load(open(mpath)) if os.path.exists(mpath) else {}
+spath = os.path.join(ROOT, "seeded", "status.json")
+status = json.load(open(spath)) if os.path.exists(spath) else {}
 
 
 def needs(notes):
@@ -48,6 +50,7 @@ for sid in sorted(os.listdir(INC)):
             "checks_against_it": "tools_try_seed.sh <seed dir> <check ids>: patch applied in a scratch worktree, harness crates rebuilt against it "
                                  "(VERIF_REPO), ./check <id> --tier quick; exit 1 + VIOLATION = caught",
         },
+        "status": status.get(sid, {"status": "valid"}),
         "checks": res,
         "caught_by": sorted(c for c, v in res.items() if v == "caught"),
         "repo_patch_note": "patch.orig.diff (if present in _incoming) is the author's patch against the pinned commit; patch.diff is the same change "
@@ -60,4 +63,6 @@ if "--table" in sys.argv:
     print("| seed | change | caught by (quick tier) | tried, not caught |")
     print("|---|---|---|---|")
     for sid, title, c, m in rows:
+        if status.get(sid, {}).get("status") == "superseded":
+            m = m + ["(superseded: neutralised by a later fix, see status.json)"]
         print("| %s | %s | %s | %s |" % (sid, title.split("—")[-1].split(" - ", 1)[-1].strip()[:110], ", ".join(c) or "—", ", ".join(m) or ""))
